@@ -34,6 +34,70 @@ pub fn configs(n_max: usize) -> Vec<(Spec, usize)> {
     v
 }
 
+pub fn configs_for(n: usize) -> Vec<(Spec, usize)> {
+    configs(n).into_iter().filter(|(s, _)| s.n == n).collect()
+}
+
+/// For windows too long for Z3^K: histories prefix . base . suffix, with the suffix enumerated
+/// exhaustively, compared with a fresh instance fed only the last K values of the same history.
+fn large_window<T: Scalar>(spec: &Spec, k: usize, sdepth: usize, st: &mut Stats, sink: &Sink) {
+    st.configs += 1;
+    let prefixes: Vec<Vec<f64>> = vec![vec![1e6], vec![-1e6, 12345.678], vec![0.0, 0.0, 1e6, -1.0], vec![3.0; 5]];
+    for base in super::common::bases(k) {
+        let base = &base[..k.max(base.len().min(k + 2))];
+        for p in &prefixes {
+            T::reset_arena();
+            let mut a = build::<T>(spec);
+            let mut hist: Vec<f64> = p.clone();
+            hist.extend_from_slice(base);
+            let ok = crate::explore::guard(|| {
+                for x in &hist {
+                    a.update(T::of(*x));
+                }
+            });
+            if ok.is_err() {
+                continue;
+            }
+            let mut found = false;
+            tree::<T, Dyn<T>>(
+                &a,
+                &Z3,
+                sdepth,
+                st,
+                &mut |v, suffix, st| {
+                    v.update(T::of(*suffix.last().unwrap()));
+                    st.transitions += 1;
+                    if found {
+                        return Step::Prune;
+                    }
+                    let mut full = hist.clone();
+                    full.extend_from_slice(suffix);
+                    let last_k = &full[full.len() - k..];
+                    let lt = to_t::<T>(last_k);
+                    if holding::<T>(spec, &lt) {
+                        return Step::Go;
+                    }
+                    let mut fresh = build::<T>(spec);
+                    for x in &lt {
+                        fresh.update(*x);
+                    }
+                    st.transitions += k as u64;
+                    st.oracle_evals += 1;
+                    let (g, w) = (v.last(), fresh.last());
+                    st.out(g.map(|x| x.f()));
+                    if !agrees(g, w, 0.0, T::inexact() > 0) {
+                        sink.push(Violation::new("C03", spec, "prefix-independence", T::NAME, &full, format!("after a history of {} values the view reports {} but a fresh instance fed only its last K={} values reports {}", full.len(), show(g), k, show(w))));
+                        found = true;
+                        return Step::Prune;
+                    }
+                    Step::Go
+                },
+                &mut |h, m| sink.push(Violation::new("C03", spec, "panicked", T::NAME, h, m)),
+            );
+        }
+    }
+}
+
 /// the statement's only exception: the view is explicitly holding its previous output
 fn holding<T: Scalar>(spec: &Spec, suffix: &[T]) -> bool {
     match spec.kind {
@@ -252,6 +316,18 @@ pub fn run(ctx: &Ctx) -> CheckOutput {
                 let sink = Sink::new();
                 let closed = single_valued(&spec, k, &alpha, cap, &mut st, &sink);
                 JobOut { stats: st, viols: sink.take(), samples: vec![json!({"explorer":"CLOSURE","scalar":"f64","view":spec.name(),"K":k,"alphabet":alpha,"closed":closed})] }
+            }));
+        }
+    }
+    // larger windows: prefix . base . suffix against a fresh instance fed the last K values
+    for n in if quick { vec![7usize, 9, 12] } else { vec![7, 8, 9, 11, 12, 16] } {
+        for (spec, k) in configs_for(n) {
+            let sd = if quick { 4 } else { 6 };
+            jobs.push(Box::new(move || {
+                let mut st = Stats::default();
+                let sink = Sink::new();
+                large_window::<Q>(&spec, k, sd, &mut st, &sink);
+                JobOut { stats: st, viols: sink.take(), samples: vec![json!({"explorer":"prefix x base x TREE(suffix)","scalar":"Q","view":spec.name(),"K":k,"suffix_depth":sd})] }
             }));
         }
     }
